@@ -1,7 +1,7 @@
 From Coq Require Import Extraction ExtrOcamlBasic.
-From LV Require Import Lib.Bytes Lib.Prelude Model.C08 Model.C08_Claim Model.C08_Cache Model.C08_Chunk Model.C08_Db.
+From LV Require Import Lib.Bytes Lib.Prelude Model.C08 Model.C08_Claim Model.C08_Cache Model.C08_Chunk Model.C08_Db Model.C08_Tx.
 Extraction Language OCaml.
 Extraction "c08_model.ml"
   prelude_byte_of_N prelude_N_of_byte prelude_Z_of_N prelude_Z_opp prelude_nat_of_N prelude_N_of_nat
   hexlify unhexlify fold_branch get_root_of_merkle_tree merkle_root branch wire collision
-  header_merkle_root maybe_verify verify_proof run attempts drun.
+  header_merkle_root maybe_verify verify_proof run attempts reopen drun txid_preimage maybe_verify_raw.
